@@ -109,12 +109,14 @@ class C12(Prop):
     def spec_verdict(self, case, impl, spec):
         # direct oracle on the implementation's token list
         if impl.startswith("T"):
-            src = case.text.encode("utf-8")
+            h = case.line.split(" ")[1]
+            src = b"" if h == "-" else bytes.fromhex(h)   # (the display text of long cases is abbreviated)
+            text = src.decode("utf-8")
             toks = impl.split()[1:]
             off = 0
             bounds = set()
             p = 0
-            for ch in case.text:
+            for ch in text:
                 bounds.add(p)
                 p += len(ch.encode("utf-8"))
             bounds.add(p)
@@ -169,4 +171,16 @@ class C12(Prop):
             for tup in itertools.product(TOK, repeat=k):
                 s = "".join(tup)
                 out.append(Case("tree " + C.hexs(s), f"tokens-{k}", s))
+        # long inputs: hundreds to thousands of tokens (the parser refills its token buffer as it
+        # goes; nothing in the property bounds the length of a query)
+        if tier == "quick":
+            lengths = list(range(200, 330, 3)) + [500, 511, 512, 513, 1023, 1024, 1025, 1500]
+        else:
+            lengths = list(range(30, 1100)) + [2047, 2048, 2049, 4095, 4096, 4097]
+        for k in lengths:
+            s = "".join(rng.choice(TOK) for _ in range(k))
+            out.append(Case("lex " + C.hexs(s), "long", s[:40] + f"… ({k} pieces)"))
+            out.append(Case("tree " + C.hexs(s), "long-tree", s[:40] + f"… ({k} pieces)"))
+            s = rng.choice(["", " ", "(1)"]) + rng.choice([" + ", "+", " * ", "*", " "]).join(rng.choice(["1", "a", "2 m", "(3)"]) for _ in range(k // 3))
+            out.append(Case("tree " + C.hexs(s), "long-tree", s[:40] + f"… ({k // 3} operands)"))
         return out
